@@ -5,4 +5,6 @@ CONSTANTS
   Scenarios <- ScnAll
   Focus = "work"
 INVARIANT GenInv
+INVARIANT TxnLockAgree
+INVARIANT DoneMeansCommitted
 CHECK_DEADLOCK FALSE
